@@ -450,3 +450,8 @@ PROPS["X01"] = {
     "mc": [{"module": "MC_X01", "consts": {"quick": {"MaxDim": 3, "Seeds": "{1, 2}"}, "thorough": {"MaxDim": 4, "Seeds": "{1, 2, 3}"}}, "workers": 4}],
     "assumptions": COMMON_ASSUMPTIONS,
 }
+
+PROPS["C10"]["extra_tools"] = [{"tool": "tlapm", "file": "TyingProof.tla",
+    "theorem": "Tied: for ANY number of loops, ANY per-copy optimizer changes and ANY coupling function, all copies are equal after "
+               "creation and after every update (abstraction of FeedbackSM.tla, inductive invariant proved with TLAPS)"}]
+PROPS["C10"]["technique"] += " + TLAPS proof of the tying invariant for unbounded loops (TyingProof.tla)"
